@@ -100,7 +100,7 @@ TEXT = {
     },
     "C20": {
         "level": "Theorems (Props/C20.lean) for every read script (any chunking, error with or after the last bytes): short_source_fails, build/append_reports_entropy_failure, "
-                 "enough_source_succeeds, build/append_key_from_delivered, draw_consumes_32; pinned witness pinned_short_source_panics (D14). Tied by the COMPLETE fault grid "
+                 "enough_source_succeeds, build/append_key_from_delivered, draw_consumes_32, history_ok_all_sources_enough / history_short_source_fails (a derivation history returns a token only if every attenuation's source delivered 32 bytes); pinned witness pinned_short_source_panics (D14). Tied by the COMPLETE fault grid "
                  "3 operations x 32 failure points x 6 reader behaviours plus success scripts, each compared with the model and checked against stdlib ed25519.",
         "note": COMMON_NOTE + "Modelled, not verified: stdlib GenerateKey's reading discipline (io.ReadFull of 32 bytes).",
         "technique": "Lean 4 proof (induction over read scripts) + exhaustive fault-grid correspondence",
